@@ -789,16 +789,20 @@ func processStructLiteralProvider(fset *token.FileSet, typeName *types.TypeName)
 		Pkg:      typeName.Pkg(),
 		Name:     typeName.Name(),
 		Pos:      pos,
-		Args:     make([]ProviderInput, st.NumFields()),
 		IsStruct: true,
 		Out:      []types.Type{out, types.NewPointer(out)},
 	}
 	for i := 0; i < st.NumFields(); i++ {
 		f := st.Field(i)
-		provider.Args[i] = ProviderInput{
+		if f.Name() == "_" {
+			// Blank fields cannot be set in a composite literal.
+			continue
+		}
+		provider.Args = append(provider.Args, ProviderInput{
 			Type:      f.Type(),
 			FieldName: f.Name(),
-		}
+		})
+		i := len(provider.Args) - 1
 		for j := 0; j < i; j++ {
 			if types.Identical(provider.Args[i].Type, provider.Args[j].Type) {
 				return nil, []error{notePosition(fset.Position(pos), fmt.Errorf("provider struct has multiple fields of type %s", types.TypeString(provider.Args[j].Type, nil)))}
